@@ -37,12 +37,14 @@ type c18Run struct {
 	NoTCP  bool
 	SigAt  time.Duration // extra delay before the signal
 	Index  int
+	OnlyWS bool // the only work in flight is one websocket tunnel
 }
 
 func c18Shutdown(c *ctx) {
 	c.R.Rule = "the real binary with http, https, tcp, tcp+sni and grpc listeners, -proxy.shutdownwait W and -proxy.deregistergraceperiod G; in flight when SIGTERM arrives: HTTP requests answered 0.2W/0.5W/2W/never after the signal, a chunked download in progress, tcp and sni tunnels (idle, exchanging, finishing at 0.3W), gRPC unary calls finishing at 0.3W and a bidi stream that never ends. Monitors: work due within 0.5W completes normally; the process exits with code 0 no later than G+W+max(3s,W); connection attempts after G+0.5s are refused or never served. evaluations = in-flight items + connection probes; non-trivial = run in which open-ended work (never-answered request, endless stream or idle tunnel) was present at the signal; distinct by (W, G, listener mix, signal moment)"
 	runs := []c18Run{{W: 1500 * time.Millisecond, G: 0}, {W: 1500 * time.Millisecond, G: 500 * time.Millisecond, SigAt: 200 * time.Millisecond},
-		{W: 2 * time.Second, G: 0, NoGRPC: true, SigAt: 50 * time.Millisecond}, {W: time.Second, G: 0, NoTCP: true}}
+		{W: 2 * time.Second, G: 0, NoGRPC: true, SigAt: 50 * time.Millisecond}, {W: time.Second, G: 0, NoTCP: true},
+		{W: 4 * time.Second, G: 0, NoTCP: true, NoGRPC: true, OnlyWS: true}}
 	if c.thorough() {
 		r := c.rng(18)
 		for i := 0; i < 36; i++ {
@@ -76,6 +78,9 @@ type c18Item struct {
 
 func c18One(c *ctx, rn c18Run) {
 	desc := fmt.Sprintf("W=%s G=%s grpc=%v tcp=%v sig+%s", rn.W, rn.G, !rn.NoGRPC, !rn.NoTCP, rn.SigAt)
+	if rn.OnlyWS {
+		desc += " websocket-only"
+	}
 	in := map[string]any{"run": desc}
 	up, err := rawhttp.NewUpstream("127.0.0.1:0")
 	if err != nil {
@@ -196,8 +201,63 @@ func c18One(c *ctx, rn c18Run) {
 		var once sync.Once
 		go func() { it.result <- f(func() { once.Do(started.Done) }) }()
 	}
+	// ---- a websocket tunnel whose last exchange happens 0.5W after the signal ----
+	add("websocket tunnel exchanging until 0.5W after the signal", 0.5, func(ready func()) string {
+		id := fmt.Sprintf("ws%d", rn.Index)
+		up.SetScript(id, &rawhttp.Script{Upgrade: true})
+		conn, err := net.DialTimeout("tcp", httpA, 5*time.Second)
+		if err != nil {
+			ready()
+			return "failed: " + err.Error()
+		}
+		defer conn.Close()
+		conn.SetDeadline(time.Now().Add(40 * time.Second))
+		fmt.Fprintf(conn, "GET /ws HTTP/1.1\r\nHost: web.test\r\nX-Verif-Id: %s\r\nUpgrade: websocket\r\nConnection: Upgrade\r\nSec-WebSocket-Key: dGhlIHNhbXBsZSBub25jZQ==\r\nSec-WebSocket-Version: 13\r\n\r\n", id)
+		br := bufio.NewReader(conn)
+		status, err := br.ReadString('\n')
+		if err != nil || !strings.HasPrefix(status, "HTTP/1.1 101") {
+			ready()
+			return fmt.Sprintf("failed: upgrade answer %q err %v", status, err)
+		}
+		for {
+			l, err := br.ReadString('\n')
+			if err != nil {
+				ready()
+				return "failed: reading the 101 headers: " + err.Error()
+			}
+			if l == "\r\n" {
+				break
+			}
+		}
+		exchange := func(msg string) error {
+			if _, err := conn.Write([]byte(msg)); err != nil {
+				return err
+			}
+			got := make([]byte, len(msg))
+			if _, err := io.ReadFull(br, got); err != nil {
+				return err
+			}
+			if string(got) != msg {
+				return fmt.Errorf("echo %q for %q", got, msg)
+			}
+			return nil
+		}
+		if err := exchange("before-the-signal\n"); err != nil {
+			ready()
+			return "failed: first exchange: " + err.Error()
+		}
+		ready()
+		<-gate(0.5)
+		if err := exchange("after-the-signal\n"); err != nil {
+			return "failed: exchange 0.5W after the signal: " + err.Error()
+		}
+		return "ok"
+	})
 	// ---- HTTP requests (plain and TLS) answered x*W after the signal ----
 	for i, x := range []float64{0.2, 0.5, 2, -1, 0.2} {
+		if rn.OnlyWS {
+			break
+		}
 		x, i := x, i
 		viaTLS := i == 4
 		add(fmt.Sprintf("http request answered %.1fW after the signal (tls=%v)", x, viaTLS), x, func(ready func()) string {
@@ -228,7 +288,15 @@ func c18One(c *ctx, rn c18Run) {
 		})
 	}
 	// ---- a chunked download in progress, finished 0.4W after the signal ----
-	add("chunked download completing 0.4W after the signal", 0.4, func(ready func()) string {
+	downloadDue := 0.4
+	if rn.OnlyWS {
+		downloadDue = -2 // not started in this run
+	}
+	add("chunked download completing 0.4W after the signal", downloadDue, func(ready func()) string {
+		if rn.OnlyWS {
+			ready()
+			return "ok"
+		}
 		id := fmt.Sprintf("dl%d", rn.Index)
 		body := make([]byte, 200000)
 		rand.New(rand.NewSource(int64(rn.Index))).Read(body)
